@@ -7,6 +7,18 @@ sys.path.insert(0, os.path.dirname(os.path.abspath(__file__)))
 import seeded
 
 
+def _head():
+    import subprocess
+    try:
+        return subprocess.run(["git", "-C", os.path.dirname(os.path.dirname(os.path.abspath(__file__))), "rev-parse", "--short", "HEAD"],
+                              stdout=subprocess.PIPE, text=True).stdout.strip()
+    except Exception:
+        return "?"
+
+
+HEAD = _head()
+
+
 def main():
     d = sys.argv[1].rstrip("/")
     prop = sys.argv[2]
@@ -38,6 +50,10 @@ def main():
     meta.setdefault("checks_run", {})
     for k, v in r.items():
         if isinstance(v, dict):
+            prev = meta["checks_run"].get("%s/%s" % (k, tier))
+            if isinstance(prev, dict) and prev.get("caught") != (v["rc"] == 1 and any("VIOLATION" in l for l in v["lines"])):
+                # the outcome changed since an earlier evaluation (the checks were strengthened in between): keep the earlier one
+                meta.setdefault("earlier_results", []).append(dict(prev, check="%s/%s" % (k, tier), superseded_at=HEAD))
             meta["checks_run"]["%s/%s" % (k, tier)] = {"exit": v["rc"], "wall_s": v["wall_s"], "caught": v["rc"] == 1 and any("VIOLATION" in l for l in v["lines"]), "message": (v["lines"] or [""])[0][:300]}
         else:
             meta["checks_run"]["error"] = v
